@@ -2,6 +2,9 @@
 trait Invalidates: Sized {
     spec fn inv_spec(&self, other: &Self) -> bool;
 
+    // the condition under which `invalidates` is the pure function `inv_spec` (for foca's own key: lawful `==` on addresses)
+    spec fn inv_lawful() -> bool;
+
     fn invalidates(&self, other: &Self) -> (r: bool)
-        ensures r == self.inv_spec(other);
+        ensures Self::inv_lawful() ==> r == self.inv_spec(other);
 }
